@@ -95,16 +95,96 @@ func astChildKind(t types.Type) string {
 	return ""
 }
 
-// fieldMentions returns the fields of variable obj that are selected inside n.
-func fieldMentions(p *packages.Package, n ast.Node, obj types.Object) map[string]bool {
-	out := map[string]bool{}
-	ast.Inspect(n, func(x ast.Node) bool {
-		se, ok := x.(*ast.SelectorExpr)
-		if !ok {
+// aliasesOf returns obj together with the local variables inside n that are
+// plain copies of it (x := obj, var x = obj, transitively).
+func aliasesOf(p *packages.Package, n ast.Node, obj types.Object) map[types.Object]bool {
+	set := map[types.Object]bool{obj: true}
+	for changed := true; changed; {
+		changed = false
+		ast.Inspect(n, func(x ast.Node) bool {
+			add := func(lhs ast.Expr, rhs ast.Expr) {
+				lid, ok := lhs.(*ast.Ident)
+				if !ok {
+					return
+				}
+				rid, ok := ast.Unparen(rhs).(*ast.Ident)
+				if !ok || !set[p.TypesInfo.ObjectOf(rid)] {
+					return
+				}
+				if lo := p.TypesInfo.ObjectOf(lid); lo != nil && !set[lo] {
+					set[lo] = true
+					changed = true
+				}
+			}
+			switch x := x.(type) {
+			case *ast.AssignStmt:
+				if len(x.Lhs) == len(x.Rhs) {
+					for i := range x.Lhs {
+						add(x.Lhs[i], x.Rhs[i])
+					}
+				}
+			case *ast.ValueSpec:
+				if len(x.Names) == len(x.Values) {
+					for i := range x.Names {
+						add(x.Names[i], x.Values[i])
+					}
+				}
+			}
 			return true
-		}
-		if id, ok := ast.Unparen(se.X).(*ast.Ident); ok && p.TypesInfo.ObjectOf(id) == obj {
-			out[se.Sel.Name] = true
+		})
+	}
+	return set
+}
+
+// fieldMentions returns the fields of variable obj (or of a plain local copy
+// of it) that are selected inside n. If decls is non-nil, handing the variable
+// to a function or method declared in the package whose parameter has the
+// same type counts as mentioning what the callee mentions (two levels).
+func fieldMentions(p *packages.Package, n ast.Node, obj types.Object) map[string]bool {
+	return fieldMentionsDeep(p, n, obj, nil, 0)
+}
+
+func fieldMentionsDeep(p *packages.Package, n ast.Node, obj types.Object, decls map[*types.Func]*ast.FuncDecl, depth int) map[string]bool {
+	out := map[string]bool{}
+	al := aliasesOf(p, n, obj)
+	ast.Inspect(n, func(x ast.Node) bool {
+		switch x := x.(type) {
+		case *ast.SelectorExpr:
+			if id, ok := ast.Unparen(x.X).(*ast.Ident); ok && al[p.TypesInfo.ObjectOf(id)] {
+				out[x.Sel.Name] = true
+			}
+		case *ast.CallExpr:
+			if decls == nil || depth >= 2 {
+				return true
+			}
+			var fobj *types.Func
+			switch f := ast.Unparen(x.Fun).(type) {
+			case *ast.Ident:
+				fobj, _ = p.TypesInfo.Uses[f].(*types.Func)
+			case *ast.SelectorExpr:
+				fobj, _ = p.TypesInfo.Uses[f.Sel].(*types.Func)
+			}
+			callee := decls[fobj]
+			if fobj == nil || callee == nil || callee.Body == nil {
+				return true
+			}
+			for i, a := range x.Args {
+				id, ok := ast.Unparen(a).(*ast.Ident)
+				if !ok || !al[p.TypesInfo.ObjectOf(id)] {
+					continue
+				}
+				k := 0
+				for _, pf := range callee.Type.Params.List {
+					for _, pn := range pf.Names {
+						if k == i && types.Identical(p.TypesInfo.TypeOf(pn), obj.Type()) {
+							for f := range fieldMentionsDeep(p, callee.Body, p.TypesInfo.ObjectOf(pn), decls, depth+1) {
+								out[f] = true
+							}
+						}
+						k++
+					}
+				}
+			}
 		}
 		return true
 	})
@@ -163,6 +243,17 @@ func runC07(c *Ctx) {
 		}
 	}
 
+	decls := map[*types.Func]*ast.FuncDecl{}
+	for _, f := range p.Syntax {
+		for _, d := range f.Decls {
+			if fd, ok := d.(*ast.FuncDecl); ok && fd.Body != nil {
+				if fobj, _ := p.TypesInfo.Defs[fd.Name].(*types.Func); fobj != nil {
+					decls[fobj] = fd
+				}
+			}
+		}
+	}
+
 	c.Rule("R7.1", func() {
 		c.Floor("R7.1", 80)
 		if len(walkers) < 5 {
@@ -200,50 +291,10 @@ func runC07(c *Ctx) {
 					continue
 				}
 				ment := map[string]bool{}
-				for _, s := range cc.Body {
-					for k := range fieldMentions(p, s, obj) {
-						ment[k] = true
-					}
-					// delegation: the node itself handed to another graph method
-					ast.Inspect(s, func(x ast.Node) bool {
-						call, ok := x.(*ast.CallExpr)
-						if !ok {
-							return true
-						}
-						sel, ok := call.Fun.(*ast.SelectorExpr)
-						if !ok {
-							return true
-						}
-						callee, ok := methods[sel.Sel.Name]
-						if !ok {
-							return true
-						}
-						if fobj, ok := p.TypesInfo.Uses[sel.Sel].(*types.Func); !ok || fobj.Type().(*types.Signature).Recv() == nil {
-							return true
-						}
-						for i, a := range call.Args {
-							id, ok := ast.Unparen(a).(*ast.Ident)
-							if !ok || p.TypesInfo.ObjectOf(id) != obj {
-								continue
-							}
-							// the callee's i-th parameter
-							k := 0
-							for _, pf := range callee.Type.Params.List {
-								for _, pn := range pf.Names {
-									if k == i {
-										// only if the parameter has the concrete node type
-										if types.Identical(p.TypesInfo.TypeOf(pn), t) {
-											for f := range fieldMentions(p, callee.Body, p.TypesInfo.ObjectOf(pn)) {
-												ment[f] = true
-											}
-										}
-									}
-									k++
-								}
-							}
-						}
-						return true
-					})
+				// fields selected in the clause, through plain copies of the clause variable, or in a
+				// function/method of the package that the node is handed to
+				for k := range fieldMentionsDeep(p, &ast.BlockStmt{List: cc.Body}, obj, decls, 0) {
+					ment[k] = true
 				}
 				tname := "*ast." + named.Obj().Name()
 				for f := range st.Fields() {
@@ -344,11 +395,76 @@ func runC07(c *Ctx) {
 				return ok && strings.HasSuffix(ta.AssertedType.String(), "go/ast.FuncDecl"), true
 			}), IsFieldOf("ast.FuncDecl", "Name")},
 		}
+		// helpers of decl that register one of their parameters: see(ObjectOf(<param>)) on every path
+		type helperSum struct{ param int }
+		helpers := map[*ssa.Function]helperSum{}
+		for _, ci := range Calls(decl, false) {
+			h := ci.Common().StaticCallee()
+			if h == nil || FuncPkgPath(h) != Module+"/unused" || h == decl || h.Blocks == nil {
+				continue
+			}
+			if _, done := helpers[h]; done {
+				continue
+			}
+			for _, sc := range CallsTo(h, false, seeName) {
+				for x := range BackSlice(sc.Common().Args[1], SliceOpts{ThroughCalls: true}) {
+					call, ok := x.(*ssa.Call)
+					if !ok || !strings.HasSuffix(CalleeName(&call.Call), "types.Info.ObjectOf") {
+						continue
+					}
+					for pi, prm := range h.Params {
+						if Derives(call.Call.Args[1], func(v ssa.Value) bool { return v == ssa.Value(prm) }) {
+							t, _ := PathAvoiding(h, h.Blocks[0].Instrs[0], func(in ssa.Instruction) bool { _, isRet := in.(*ssa.Return); return isRet }, func(in ssa.Instruction) bool { return in == ssa.Instruction(sc) }, nil)
+							if t == nil {
+								helpers[h] = helperSum{pi}
+							}
+						}
+					}
+				}
+			}
+		}
 		for _, f := range forms {
 			found := false
 			why := "no g.see call on the declared object under this declaration form"
 			if len(f.edges) == 0 {
 				why = "the declaration form is no longer distinguished in (*graph).decl"
+			}
+			for _, ci := range Calls(decl, false) {
+				h := ci.Common().StaticCallee()
+				sum, isHelper := helpers[h]
+				if !isHelper || len(f.edges) == 0 {
+					continue
+				}
+				if ok, _ := MustPassEdges(decl, ci, f.edges); !ok {
+					continue
+				}
+				args := ci.Common().Args
+				if sum.param >= len(args) || !DerivesLocal(args[sum.param], f.src) {
+					continue
+				}
+				// the helper is called for every declared name: from the load of the name to the next one / the end
+				var start ssa.Instruction
+				for x := range BackSlice(args[sum.param], SliceOpts{NoMemory: true}) {
+					if in, ok := x.(ssa.Instruction); ok && in.Parent() == decl {
+						if u, isLoad := x.(*ssa.UnOp); isLoad && (start == nil || InstrDominates(start, in)) {
+							start = u
+						}
+					}
+				}
+				if start == nil {
+					continue
+				}
+				t, path := PathAvoiding(decl, start, func(in ssa.Instruction) bool {
+					if _, ok := in.(*ssa.Return); ok {
+						return true
+					}
+					return in == start
+				}, func(in ssa.Instruction) bool { return in == ssa.Instruction(ci) }, nil)
+				if t == nil {
+					found = true
+				} else {
+					why = "a path skips the registering helper " + h.Name() + ": " + PathString(decl, path)
+				}
 			}
 			for _, ci := range CallsTo(decl, false, seeName) {
 				if ok, _ := MustPassEdges(decl, ci, f.edges); !ok || len(f.edges) == 0 {
